@@ -551,13 +551,23 @@ def r19_3(ctx):
                 continue
             if l['op'] not in ('>', '>=', '<', '<=') or r['op'] not in ('>', '>=', '<', '<='):
                 continue
-            xl, bl = canon(f, f.kid(l, 0)), canon(f, f.kid(l, 1))
-            xr, br = canon(f, f.kid(r, 0)), canon(f, f.kid(r, 1))
+            FLIP = {'<': '>', '<=': '>=', '>': '<', '>=': '<='}
+
+            def oriented(c):
+                a, b = canon(f, f.kid(c, 0)), canon(f, f.kid(c, 1))
+                # the tested address on the left, the buffer bound on the right
+                if ('data' in a and 'data' not in b):
+                    return b, a, FLIP[c['op']]
+                return a, b, c['op']
+            xl, bl, opl = oriented(l)
+            xr, br, opr = oriented(r)
             if xl != xr:
                 continue
+            l = {'op': opl, 'b': bl}
+            r = {'op': opr, 'b': br}
             lo, hi = (l, r) if bl.endswith('data') or bl.endswith('.data') else (r, l)
-            base = canon(f, f.kid(lo, 1))
-            top = canon(f, f.kid(hi, 1))
+            base = lo['b']
+            top = hi['b']
             if not base.endswith('data') or not top.startswith('(' + base + ' + ') or \
                     not (top.endswith('used)') or top.endswith('size)')):
                 continue
